@@ -259,7 +259,7 @@ def scenario_slice(trace_path, scenario_n, case=None):
     on = False
     with open(trace_path) as f:
         for line in f:
-            if '"ev":"scenario"' in line:
+            if '"ev":"scenario"' in line or '"ev": "scenario"' in line:
                 e = json.loads(line)
                 if on:
                     break
@@ -274,7 +274,7 @@ def slice_at_line(trace_path, line_no):
     evs = []
     with open(trace_path) as f:
         for i, line in enumerate(f, 1):
-            if '"ev":"scenario"' in line:
+            if '"ev":"scenario"' in line or '"ev": "scenario"' in line:
                 if i > line_no:
                     break
                 evs = []
